@@ -1,6 +1,7 @@
 """C17 — Middleware only observes."""
 # NOTE: no `from __future__ import annotations` (generated subscribers are plain functions; actors need real annotations)
 import asyncio
+from datetime import timedelta
 import json
 from typing import Any
 
@@ -95,6 +96,9 @@ def call_style(style: str, names: list, values: list):
     return list(values[:k]), dict(zip(names[k:], values[k:]))
 
 
+trace_probe: list = []  # the probe of the run with subscribers (module-level: the script's return value is compared as a whole)
+
+
 async def _script(loop, case, out: Outcome, with_subs: bool):
     """Run the lifecycle script; returns (per-op results, final state, signal log, call log)."""
     from repid import BasicConverter, MessageCategory, MessageDependency, Router, Worker
@@ -109,7 +113,13 @@ async def _script(loop, case, out: Outcome, with_subs: bool):
     log: list = []
     sentinel: list = []
     state_fns = []
+    probe = None
     if with_subs:
+        from harness.mwprobe import Probe
+
+        probe = Probe(loop)
+        probe.attach(conn)
+        trace_probe.append(probe)
         for spec in case["subs"]:
             fn, ns = make_subscriber(spec, log, "A", loop)
             ns["STATE"] = lambda: _state(env)
@@ -242,6 +252,8 @@ async def _script(loop, case, out: Outcome, with_subs: bool):
     if consumer is not None:
         await consumer.finish()
     await asyncio.sleep(0.2)
+    if probe is not None:
+        probe.detach()
     return results, _state(env), log, calls, sentinel
 
 
@@ -261,6 +273,7 @@ def _state(env: Env) -> str:
 
 def run(case: dict) -> Outcome:
     out = Outcome()
+    trace_probe.clear()
     try:
         ref = vclock.run(lambda loop: _script(loop, case, out, False), max_steps=600_000)
         got = vclock.run(lambda loop: _script(loop, case, out, True), max_steps=600_000)
@@ -268,6 +281,14 @@ def run(case: dict) -> Outcome:
         out.inconclusive = True
         out.info["watchdog"] = str(e)
         return out
+    finally:
+        for pb in trace_probe:
+            pb.detach()
+    # whoever executed a wrapped operation (the script, the worker, a consumer's own background task): every top-level
+    # execution was announced, nested ones were not
+    for pb in trace_probe:
+        for m in pb.mismatches():
+            out.v("signal-completeness", m, broker=case["broker"])
     r_ref, s_ref, _, _, _ = ref
     r_got, s_got, log, calls, sentinel = got
     nested = [x for x in sentinel if x[1] == "child"]
@@ -353,6 +374,84 @@ def _ident(v: Any) -> Any:
     return f"<{type(v).__name__}:{getattr(getattr(v, 'id_', None), '__str__', lambda: '')() or getattr(v, 'data', '') or ''}>"
 
 
+# ----------------------------------------------------------------------------- background work after a transient fault
+
+
+@st.composite
+def fault_case(draw):
+    """Redis: the consumer's own background task dead-letters expired messages and hands live ones out; one round trip of the
+    worker's client fails.  Whatever the library does about it (give up, restart), operations that do execute are announced."""
+    return {"seed": draw(st.integers(0, 999)), "expired": draw(st.integers(1, 3)), "live": draw(st.integers(0, 2)),
+            "fail_at": draw(st.one_of(st.none(), st.integers(1, 40))), "attempts": draw(st.integers(2, 4)),
+            "late_expired": draw(st.booleans()), "lat": draw(st.lists(st.sampled_from([0.0, 0.001]), max_size=8))}
+
+
+async def _fault(loop, case, out: Outcome):
+    from harness.mwprobe import Probe
+    from repid import MessageCategory
+    from repid.data._key import RoutingKey
+    from repid.data._parameters import Parameters
+
+    reset_globals()
+    env = Env("redis", loop, case["seed"])
+    prod = env.connection("P", None, buckets=False)
+    await prod.connect()
+    await prod.message_broker.queue_declare("qx")
+    conn = env.connection("A", case["lat"], buckets=False)
+    await conn.connect()
+    probe = Probe(loop)
+    probe.attach(conn)
+    try:
+        now = vclock.VDateTime.now()
+        old = Parameters(timestamp=now - timedelta(seconds=30), ttl=timedelta(seconds=1))
+        n = 0
+        for _ in range(case["expired"]):
+            n += 1
+            await prod.message_broker.enqueue(RoutingKey(topic="t", queue="qx", priority=5, id_=f"e{n}"), "", old)
+        for i in range(case["live"]):
+            await prod.message_broker.enqueue(RoutingKey(topic="t", queue="qx", priority=5, id_=f"l{i}"), "", Parameters())
+        b = conn.message_broker
+        c = b.get_consumer("qx", None, None, MessageCategory.NORMAL)
+        client = env.clients["A"]
+        if case["fail_at"] is not None:
+            client.fail_at = {client.nrt + case["fail_at"]}
+        await c.start()
+        for k in range(case["attempts"]):
+            try:
+                key, _p, _q = await asyncio.wait_for(c.consume(), timeout=1.6)
+                await b.ack(key)
+            except asyncio.TimeoutError:
+                pass
+            except Exception:  # noqa: BLE001  (the injected fault may surface here)
+                pass
+            if case["late_expired"] and k == 0:
+                n += 1
+                await prod.message_broker.enqueue(RoutingKey(topic="t", queue="qx", priority=5, id_=f"e{n}"), "", old)
+        try:
+            await asyncio.wait_for(c.finish(), timeout=5.0)
+        except (asyncio.TimeoutError, Exception):  # noqa: BLE001
+            pass
+        await asyncio.sleep(0.5)
+    finally:
+        probe.detach()
+    for m in probe.mismatches():
+        out.v("signal-completeness", m, broker="redis", fault=case["fail_at"] is not None)
+    nacks = [e for e in probe.execs if e["op"] == "nack" and e["top"]]
+    out.nontrivial = bool(nacks)
+    out.cls("fault" if case["fail_at"] is not None else "no-fault", "background-nack" if nacks else "no-background-nack",
+            "fault-hit" if case["fail_at"] is not None and env.clients["A"].nrt >= min(env.clients["A"].fail_at or {10**9}) else "fault-not-reached")
+
+
+def run_fault(case: dict) -> Outcome:
+    out = Outcome()
+    try:
+        vclock.run(lambda loop: _fault(loop, case, out), max_steps=400_000)
+    except (vclock.StepLimit, vclock.Deadlock) as e:
+        out.inconclusive = True
+        out.info["watchdog"] = str(e)
+    return out
+
+
 def _s(b):
     return lambda: mw_case(b)
 
@@ -377,5 +476,6 @@ CHECK = Check(
         SubCheck("mem", _s("mem"), run, quick=25, thorough=1200),
         SubCheck("redis", _s("redis"), run, quick=15, thorough=800),
         SubCheck("amqp", _s("amqp"), run, quick=15, thorough=800),
+        SubCheck("redis-background", fault_case, run_fault, quick=25, thorough=1000),
     ],
 )
